@@ -383,6 +383,8 @@ static struct
   size_t idscan_start; _Bool idscan_has; size_t idscan_first;
   /* the last search for a data mark: where it started and where the mark found ends */
   size_t rec_search_start, rec_mark_end;
+  /* where the last copy_fm_bytes ended, and where the ID field in force ended */
+  size_t copy_end, hdr_end;
   unsigned long ids, pushed;
 } MF;
 #define FM_ID_MARK_PATTERN 0xAAAAAAAAF57Eull
@@ -417,7 +419,7 @@ static bool copy_fm_bytes_v(const struct BitStream *bits, size_t *thisbit, size_
   MF.copy_vec = out; MF.copy_from = out->n; MF.copy_n = n;
   g_diag = 0;
   r = copy_fm_bytes(bits, thisbit, n, out);
-  MF.copy_ok = r; MF.copy_epoch = MF.epoch;
+  MF.copy_ok = r; MF.copy_epoch = MF.epoch; MF.copy_end = *thisbit;
   return r;
 }
 static unsigned long fm_get_crc_v(const struct decvec *v)
@@ -436,7 +438,7 @@ static bool decode_sector_address_and_size_v(const struct decvec *h, struct Sect
   if (r)
     {
       MF.hdr_crc_ok = (MF.crc_vec == h && MF.crc_zero && MF.crc_n == h->n && h->n == 7 && MF.crc_epoch == MF.epoch);
-      MF.hdr_size = *siz; MF.hdr_addr = *a; MF.ids = MF.ids + 1;
+      MF.hdr_size = *siz; MF.hdr_addr = *a; MF.ids = MF.ids + 1; MF.hdr_end = MF.copy_end;
     }
   return r;
 }
@@ -464,6 +466,7 @@ static void mon_push_sector_fm(const struct FmSector *s)
   __CPROVER_assert(s->data.n == (size_t)MF.hdr_size, "C06: the yielded data is exactly the sector, without the CRC bytes");
   /* with scan_for's first-match postcondition: a search for an ID mark from where the search for the data mark started
      found none that ends before the data mark does */
+  __CPROVER_assert(MF.rec_search_start == MF.hdr_end, "C06: the search for the data mark starts where the ID field ends (nothing between them is skipped unexamined)");
   __CPROVER_assert(MF.idscan_start == MF.rec_search_start && (!MF.idscan_has || MF.idscan_first >= MF.rec_mark_end),
                    "C06: no ID address mark lies between the ID field and the data mark used (the data field belongs to this ID field, not to a later sector)");
   MF.hdr_open = 0;
@@ -474,7 +477,7 @@ static void mon_push_sector_fm(const struct FmSector *s)
   __CPROVER_loop_invariant(thisbit <= 8 * TRACK_BYTES + 16 * 1032 && sec.data.n <= DECVEC_CAP && MF.ids <= thisbit && MF.pushed <= MF.ids && MF.pushed + (MF.hdr_open ? 1 : 0) <= MF.ids) \
   __CPROVER_loop_invariant(state == LookingForAddress || state == LookingForRecord) \
   __CPROVER_loop_invariant(state == LookingForRecord ==> \
-     (MF.hdr_open && MF.hdr_crc_ok && sec_size == MF.hdr_size && \
+     (MF.hdr_open && MF.hdr_crc_ok && sec_size == MF.hdr_size && thisbit == MF.hdr_end && \
       (sec_size == 128 || sec_size == 256 || sec_size == 512 || sec_size == 1024) && \
       sec.address.cylinder == MF.hdr_addr.cylinder && sec.address.head == MF.hdr_addr.head && sec.address.record == MF.hdr_addr.record))
 #include "decode_fm_track.inc"
